@@ -5,3 +5,7 @@ pub fn add_assign_binary(dest: &mut [u64], src: &[u64]) {
         *dest ^= src;
     }
 }
+
+#[cfg(cberner_raptorq_verif)]
+#[path = "/verif/hooks/gf2_hooks.rs"]
+pub(crate) mod verif_hooks;
